@@ -52,12 +52,21 @@ def segConds : List (String × String) := [
 /-- control-flow skeleton (tests, assignments, raises, returns in source order) of the validators modelled by hand in Model/Validators.lean -/
 def skeleton : List (String × List String) := [
   ("is_array_like", ["if not isinstance(inp, (list, tuple, np.ndarray))", "  raise MagpylibBadUserInput"]),
-  ("make_float_array", ["try", "  inp_array = np.array(inp, dtype=float)", "except Exception", "  raise MagpylibBadUserInput", "return inp_array"]),
+  ("make_float_array", ["try", "  arr = inp if isinstance(inp, np.ndarray) else np.array(inp)", "  kind = arr.dtype.kind", "  if kind not in 'fiub'", "    if kind != 'O' or not all((isinstance(x, (numbers.Number, np.bool_)) for x in arr.flat))", "      bad = {'O': 'None or other objects that are not numbers', 'U': 'strings', 'S': 'bytes'}.get(...)", "      raise TypeError", "  if arr is inp", "    inp_array = np.array(arr, dtype=float)", "  else", "    inp_array = np.asarray(arr, dtype=float)", "except Exception", "  raise MagpylibBadUserInput", "return inp_array"]),
+  ("none_rows_to_nan", ["try", "  arr = np.array(inp)", "  if arr.dtype.kind == 'O' and arr.ndim == 2", "    arr[np.equal(arr, None).all(axis=1)] = np.nan", "except Exception", "  return inp", "return arr"]),
   ("check_array_shape", ["if inp.ndim in dims", "  if shape_m1 == 'any' or inp.shape[-1] == shape_m1", "    if length is None or len(inp) == length", "      return None", "raise MagpylibBadUserInput"]),
   ("check_format_input_scalar", ["if allow_None", "  if inp is None", "    return None", "if not isinstance(inp, numbers.Number)", "  raise MagpylibBadUserInput", "try", "  inp = float(inp)", "except (TypeError, OverflowError)", "  raise MagpylibBadUserInput", "if forbid_negative", "  if inp < 0", "    raise MagpylibBadUserInput", "return inp"]),
   ("check_format_input_vector", ["if allow_None", "  if inp is None", "    return None", "is_array_like(...)", "inp = make_float_array(...)", "check_array_shape(...)", "if isinstance(reshape, tuple)", "  if inp.size == 0", "    raise MagpylibBadUserInput", "  return np.reshape(inp, reshape)", "if forbid_negative0", "  if np.any(inp <= 0)", "    raise MagpylibBadUserInput", "return inp"]),
   ("check_format_input_vector2", ["is_array_like(...)", "inp = make_float_array(...)", "for (d1, d2) in zip(inp.shape, shape)", "  if d2 is not None", "    if d1 != d2", "      raise ValueError", "return inp"]),
-  ("check_format_input_vertices", ["inp = check_format_input_vector(...)", "if inp is not None", "  if inp.shape[0] < 2", "    raise MagpylibBadUserInput", "return inp"]),
+  ("check_format_input_vertices", ["if isinstance(inp, (list, tuple))", "  inp = none_rows_to_nan(inp)", "inp = check_format_input_vector(...)", "if inp is not None", "  if inp.shape[0] < 2", "    raise MagpylibBadUserInput", "return inp"]),
+  ("check_start_type", ["if not (isinstance(inp, (int, np.integer)) or (isinstance(inp, str) and inp == 'auto'))", "  raise MagpylibBadUserInput"]),
+  ("check_degree_type", ["if not isinstance(inp, bool)", "  raise MagpylibBadUserInput"]),
+  ("check_field_input", ["allowed = tuple('BHMJ')", "if not (isinstance(inp, str) and inp in allowed)", "  raise MagpylibBadUserInput"]),
+  ("check_getBH_output_type", ["acceptable = ('ndarray', 'dataframe')", "if output not in acceptable", "  raise ValueError", "if output == 'dataframe'", "  try", "  except ImportError", "    raise ModuleNotFoundError", "return output"]),
+  ("check_format_input_anchor", ["if isinstance(inp, numbers.Number) and inp == 0", "  return np.array((0.0, 0.0, 0.0))", "return check_format_input_vector(inp, dims=(1, 2), shape_m1=3, sig_name='anchor', sig_type='`None` or `0` or array_like (list, tuple, ndarray) with shape (3,)', allow_None=True)"]),
+  ("check_format_input_angle", ["if isinstance(inp, numbers.Number)", "  return float(inp)", "return check_format_input_vector(inp, dims=(1,), shape_m1='any', sig_name='angle', sig_type='int, float or array_like (list, tuple, ndarray) with shape (n,)')"]),
+  ("check_format_input_axis", ["if isinstance(inp, str)", "  if inp == 'x'", "    return np.array((1, 0, 0))", "  if inp == 'y'", "    return np.array((0, 1, 0))", "  if inp == 'z'", "    return np.array((0, 0, 1))", "  raise MagpylibBadUserInput", "inp = check_format_input_vector(...)", "if np.all(inp == 0)", "  raise MagpylibBadUserInput", "return inp"]),
+  ("check_format_input_orientation", ["if not isinstance(inp, (Rotation, type(None)))", "  raise MagpylibBadUserInput", "if inp is None", "  inpQ = np.array((0, 0, 0, 1))", "  inp = Rotation.from_quat(inpQ)", "else", "  inpQ = inp.as_quat()", "  if not np.all(np.isfinite(inpQ))", "    raise MagpylibBadUserInput", "if init_format", "  if inpQ.size == 0", "    raise MagpylibBadUserInput", "  return np.reshape(inpQ, (-1, 4))", "return (inp, inpQ)"]),
   ("Sensor.pixel", ["pixel = check_format_input_vector(...)", "if pixel is not None and pixel.size == 0", "  raise MagpylibBadUserInput", "self._pixel = pixel"]),
   ("Sensor.handedness", ["if not (isinstance(val, str) and val in {'right', 'left'})", "  raise MagpylibBadUserInput", "self._handedness = val"])]
 
